@@ -27,19 +27,20 @@ func bu(v uint64) *big.Int { return new(big.Int).SetUint64(v) }
 
 // modelOut is what the statement prescribes for one (base fee, max gas, consumption, min price) point.
 type modelOut struct {
-	Limit   *big.Int // block gas limit the target is derived from
-	Target  *big.Int // half the limit (integer)
-	Used    *big.Int // gas consumed in the block as the fee market sees it (capped at the limit of a gas-limited block)
-	Rel     string   // zero | below | target-1 | target | target+1 | above | limit | over-limit
-	Side    string   // at-target | above-target | below-target
-	Defined bool     // false: target is 0 and usage > 0 (EIP-1559 movement undefined)
-	Delta   *big.Int // movement before the min-price clamp
-	Raw     *big.Int // next base fee before the min-price clamp
-	Next    *big.Int // prescribed next base fee
-	Clamped bool     // floor(min gas price) > Raw
-	AtFloor bool     // floor(min gas price) == Raw
-	PlusOne bool     // above target and b*|d|/target/8 rounded to 0: the "at least 1" rule decided
-	ZeroDec bool     // below target and the movement rounded to 0
+	Limit     *big.Int // block gas limit the target is derived from
+	Target    *big.Int // half the limit (integer)
+	Used      *big.Int // gas consumed in the block as the fee market sees it (capped at the limit of a gas-limited block)
+	Rel       string   // zero | below | target-1 | target | target+1 | above | limit | over-limit
+	Side      string   // at-target | above-target | below-target
+	Defined   bool     // false: target is 0 and usage > 0 (EIP-1559 movement undefined)
+	Delta     *big.Int // movement before the min-price clamp
+	Raw       *big.Int // next base fee before the min-price clamp
+	Next      *big.Int // prescribed next base fee
+	Saturated bool     // prescribed value exceeded 256 bits and was saturated at 2^256-1
+	Clamped   bool     // floor(min gas price) > Raw
+	AtFloor   bool     // floor(min gas price) == Raw
+	PlusOne   bool     // above target and b*|d|/target/8 rounded to 0: the "at least 1" rule decided
+	ZeroDec   bool     // below target and the movement rounded to 0
 }
 
 // nextBaseFee applies the statement: target = limit/2 where limit = MaxGas, or 2^64-1 when MaxGas = -1;
@@ -127,6 +128,12 @@ func nextBaseFee(base *big.Int, maxGas int64, consumed uint64, minFloor *big.Int
 		m.Clamped = true
 	case c == 0:
 		m.AtFloor = true
+	}
+	// The fee-market parameter is a 256-bit integer: a prescribed value that does not fit cannot be stored.
+	// The property demands that the computation never fails, so the representable result is the saturated one.
+	if m.Next.BitLen() > 256 {
+		m.Next = new(big.Int).Sub(new(big.Int).Lsh(big.NewInt(1), 256), big.NewInt(1))
+		m.Saturated = true
 	}
 	return m
 }
